@@ -178,6 +178,17 @@ APPEND = {
     ("C20_wait1_unnotified_blocks", "wait1_unnotified_blocks", "without a notification the waiter blocks (or takes the single spurious return)"),
     ("C20_unnotified_waiter_blocked_until_post", "unnotified_waiter_blocked_until_post", "and stays blocked until a notify on that object: re-polls happen only after a wake"),
     ("C20_spurious_at_most_once", "spurious_at_most_once", "the modelled spurious return happens at most once per Notify"),
+ ]), ("LV.SyncFacts LV.ExecFacts LV.SyncMono LV.NotifyFacts LV.CountFacts LV.ExclFacts LV.WakerFacts", "The AtomicWaker protocol over all interleavings (WakerFacts.v)", [
+    ("C20_slot_step", "slot_step", "EXACT, for every micro-operation: the waker slot changes only by a successful register (to the registering task's own waker) and by a take (to empty)"),
+    ("C20_wake_wakes_latest", "wake_wakes_latest", "the slot always holds the waker of the most recent successful registration since the last take: wake() notifies that task or nobody"),
+    ("C20_register_success_effect", "register_success_effect", "a successful register stores the task's waker under the lock and drops the one it replaces"),
+    ("C20_register_contended_effect", "register_contended_effect", "a contended register makes the task notify ITSELF, so its next wait does not block"),
+    ("C20_wake_take_effect", "wake_take_effect", "wake(): take the stored waker, release the lock, then notify its task and drop it"),
+    ("C20_registered_then_woken_not_lost", "registered_then_woken_not_lost", "GLOBAL: a registered waker that is later taken by a wake() -- any steps of any threads in between -- is notified: the wake is in the waking thread's continuation or the task's flag is set, the task's wait then does not block and its consuming step succeeds"),
+    ("C20_wake_during_registration_b", "wake_during_registration_b", "a wake that arrives while a registration holds the lock is blocked until the release and then takes the freshly stored waker (exclusion from ExclFacts)"),
+    ("C20_wake_during_registration_a", "wake_during_registration_a", "a registration that follows a take succeeds on the free lock and acquires the waking thread's clock through it: it observes the wake"),
+    ("C20_repoll_only_after_wake", "repoll_only_after_wake", "after a Pending poll the task's continuation is exactly [Notify::wait; poll]: it re-polls only after a wake or the single spurious return"),
+    ("C20_wake_never_lost_exhaustive", "wake_never_lost_exhaustive", "computed: all 205 schedules of the canonical one-task / one-waker program for three store orderings: never a deadlock"),
  ])],
  "C08": [("LV.NotifyFacts", "Global persistence of notifications (NotifyFacts.v)", [
     ("C08_no_lost_wakeup", "no_lost_wakeup", "GLOBAL: a notification is never lost: after notify, over any steps of any threads, the wait proceeds and acquires the notifier's clock"),
